@@ -559,6 +559,72 @@ exact: (@source_first_moment_zero expm expm_sound regf n Ss Slast alpha ts).
 Qed.
 End SrcZero.
 
+Lemma vadd_vscale0_r (a b : seq R) : size a = size b -> vadd OpsR a (vscale OpsR 0 b) = a.
+Proof.
+move=> sab; apply: (@eq_from_nth _ 0); first by rewrite (@size_vadd (size a)) ?size_vscale.
+move=> i _; by rewrite nth_vadd ?size_vscale // nth_vscale mul0r addr0.
+Qed.
+
+Lemma vscale_map (S : Type) (c : R) (f : S -> R) (sts : seq S) : vscale OpsR c [seq f s | s <- sts] = [seq c * f s | s <- sts].
+Proof. by rewrite vscaleE -map_comp. Qed.
+
+Section SrcWeighted.
+Variable expm : seq (seq R) -> seq (seq R).
+Hypothesis expm_sound : forall n A, wf n n A -> wf n n (expm A) /\ mx_of n n (expm A) = mexp (mx_of n n A).
+Variables (regf : seq (seq R) -> R) (n : nat) (Ss : seq (Q * seq (seq R))) (Slast : seq (seq R)) (alpha : seq R) (ts : seq Q).
+Hypothesis H0 : regf (List.hd (None, Slast) (all_epochs Ss Slast)).2 <> 0.
+Hypothesis H1 : List.Forall (fun x : Q * seq (seq R) => wf n n x.2) Ss.
+Hypothesis H2 : wf n n Slast.
+Hypothesis H5 : epochs_wf (seq (seq R)) 0%QQ Ss.
+Hypothesis H6 : List.Forall (fun t => (0 <= t)%QQ) ts.
+Let A := acc1 expm regf Ss Slast alpha ts.
+
+Theorem source_first_moment_scale (c : R) (r : seq R) : size r = n -> A (vscale OpsR c r) = vscale OpsR c (A r).
+Proof.
+move=> sr.
+have := @source_first_moment_linear expm expm_sound regf n Ss Slast alpha ts r r c 0 H0 H1 H2 sr sr H5 H6.
+by rewrite !vadd_vscale0_r ?size_vscale.
+Qed.
+
+(* a weighted family: sum_i w_i r_i(s) = W r_tot(s) in every state  ==>  sum_i w_i E[r_i] = W E[r_tot] *)
+Theorem source_weighted_family_means_sum (nn nl : nat) (rtot : reward) (W : R) (I : seq nat) (w : nat -> R) (rl : nat -> reward)
+    (sts : seq state) :
+  size sts = n -> reward_ok nn rtot = true -> all (fun l => reward_ok nn (rl l)) I ->
+  List.Forall (fun s => n_loci s = nl) sts ->
+  List.Forall (fun s => List.fold_right Rplus 0 (List.map (fun l => w l * reward_get OpsR nn (rl l) s) I)
+                        = W * reward_get OpsR nn rtot s) sts ->
+  vscale OpsR W (A [seq gen_reward_get OpsR nn nl rtot s | s <- sts])
+  = vsum (size ts) [seq vscale OpsR (w l) (A [seq gen_reward_get OpsR nn nl (rl l) s | s <- sts]) | l <- I].
+Proof.
+move=> ssz rok rlok Hnl Hsum.
+have E1 : [seq gen_reward_get OpsR nn nl rtot s | s <- sts] = [seq reward_get OpsR nn rtot s | s <- sts].
+  by have := gen_reward_vector_eq_R nn nl rtot sts rok Hnl; rewrite /reward_vector !L_map.
+have E2 l : l \in I -> [seq gen_reward_get OpsR nn nl (rl l) s | s <- sts] = [seq reward_get OpsR nn (rl l) s | s <- sts].
+  by move=> /(allP rlok) ok; have := gen_reward_vector_eq_R nn nl _ sts ok Hnl; rewrite /reward_vector !L_map.
+have -> : [seq vscale OpsR (w l) (A [seq gen_reward_get OpsR nn nl (rl l) s | s <- sts]) | l <- I]
+        = [seq A r | r <- [seq [seq w l * reward_get OpsR nn (rl l) s | s <- sts] | l <- I]].
+  rewrite -map_comp; apply/eq_in_map => l lI /=.
+  by rewrite (E2 l lI) -source_first_moment_scale ?size_map // vscale_map.
+rewrite -(@source_first_moment_sum expm expm_sound regf n Ss Slast alpha ts H0 H1 H2 H5 H6); last first.
+  by apply/allP => x /mapP [l _ ->]; rewrite size_map ssz.
+rewrite -source_first_moment_scale ?size_map // E1 vscale_map; congr (A _).
+rewrite -ssz vsum_pointwise.
+by elim: Hsum => [|s l Hs _ IH] //=; congr (_ :: _).
+Qed.
+
+(* property C11: the size-weighted bins of the expected spectrum sum to n times the expected tree height, on any demography *)
+Theorem source_weighted_sfs_is_n_height (nn : nat) (sts : seq state) :
+  size sts = n -> (2 <= nn)%coq_nat -> List.Forall (fun s => bc_inv nn s) sts ->
+  vscale OpsR (INR nn) (A [seq gen_reward_get OpsR nn 1 RTreeHeight s | s <- sts])
+  = vsum (size ts) [seq vscale OpsR (INR i) (A [seq gen_reward_get OpsR nn 1 (RUnfoldedSFS i) s | s <- sts]) | i <- iota 1 (nn - 1)].
+Proof.
+move=> ssz n2 Hinv; apply: (@source_weighted_family_means_sum nn 1 RTreeHeight (INR nn) (iota 1 (nn - 1)) INR RUnfoldedSFS) => //.
+- by apply/allP => i; rewrite mem_iota => /andP [i1 _]; case: i i1.
+- by elim: Hinv => [|s l [h _] _ IH]; constructor.
+- by elim: Hinv => [|s l h _ IH]; constructor => //; exact: weighted_sfs_is_n_height.
+Qed.
+End SrcWeighted.
+
 Print Assumptions evalM_ur_linear.
 Print Assumptions source_first_moment_linear.
 Print Assumptions source_first_moment_sum.
@@ -573,3 +639,5 @@ Print Assumptions source_expected_sfs_sums_to_branch_length.
 Print Assumptions source_expected_folded_sfs_sums_to_branch_length.
 Print Assumptions source_sum_reward_mean.
 Print Assumptions source_unvisited_deme_contributes_zero.
+Print Assumptions source_weighted_family_means_sum.
+Print Assumptions source_weighted_sfs_is_n_height.
